@@ -32,7 +32,8 @@ struct quill::Codec<Thrower> : quill::DeferredFormatCodec<Thrower>
 };
 
 // statement kinds: 0 ok, 1 run-time format string with a missing argument, 2..4 user formatter throws
-// (runtime_error / int / non-std class), 5 LOG_BACKTRACE without init_backtrace
+// (runtime_error / int / non-std class), 5 LOG_BACKTRACE without init_backtrace, 6 ok with named arguments, 7 placeholders
+// without arguments, 8..10 named arguments + throwing user formatter; a history is a number in base 16
 template <typename L>
 static void issue(L* l, int kind, int tid, int seq)
 {
@@ -42,6 +43,7 @@ static void issue(L* l, int kind, int tid, int seq)
   static constexpr MacroMetadata md_bt{"sc.cpp:13", "fn", "{}.{}|bt", nullptr, LogLevel::Backtrace, MacroMetadata::Event::Log};
   static constexpr MacroMetadata md_named{"sc.cpp:14", "fn", "{t}.{s}|ok named {k}", nullptr, LogLevel::Info, MacroMetadata::Event::Log};
   static constexpr MacroMetadata md_zero{"sc.cpp:15", "fn", "{}.{}|zeroargs", nullptr, LogLevel::Info, MacroMetadata::Event::Log};
+  static constexpr MacroMetadata md_named_thrower{"sc.cpp:16", "fn", "{t}.{s}|named {k}", nullptr, LogLevel::Info, MacroMetadata::Event::Log};
   switch (kind)
   {
   case 0: l->template log_statement<false, false>(LogLevel::None, &md_ok, tid, seq); break;
@@ -51,6 +53,11 @@ static void issue(L* l, int kind, int tid, int seq)
   case 4: l->template log_statement<false, false>(LogLevel::None, &md_thrower, tid, seq, Thrower{kind - 1, seq}); break;
   case 5: l->template log_statement<false, false>(LogLevel::None, &md_bt, tid, seq); break;
   case 6: l->template log_statement<false, false>(LogLevel::None, &md_named, tid, seq, 77); break; // well formed, named argument
+  case 8:
+  case 9:
+  case 10: // named arguments (formatted a second time for the key/value list) whose user formatter throws
+    l->template log_statement<false, false>(LogLevel::None, &md_named_thrower, tid, seq, Thrower{kind - 7, seq});
+    break;
   default: l->template log_statement<false, false>(LogLevel::None, &md_zero); break;               // placeholders but no arguments at all
   }
 }
@@ -106,8 +113,8 @@ static Scenario make_c10(std::map<std::string, long> const&)
       long const n = s.c("n", 3);
       for (int seq = 1; seq <= n; ++seq)
       {
-        int const kind = static_cast<int>(h % 8);
-        h /= 8;
+        int const kind = static_cast<int>(h % 16);
+        h /= 16;
         point();
         issue(*la, kind, 1, seq);
         w.events.push_back("issued 1." + std::to_string(seq) + " kind " + std::to_string(kind));
@@ -115,6 +122,20 @@ static Scenario make_c10(std::map<std::string, long> const&)
       point();
       (*la)->flush_log();
       w.events.push_back("flush 1 returned");
+      // at this instant: a throwing flush of sink 1 must not keep sink 2 (the sink after it) from being flushed - no
+      // statement of this thread may sit in sink 2 behind its last flush mark
+      {
+        int unflushed = 0;
+        for (auto const& r : w.recs)
+        {
+          if (r.sink != 2 || r.is_destroy) continue;
+          if (r.is_flush)
+            unflushed = 0;
+          else if (atoi(id_of(r.msg).c_str()) == 1)
+            ++unflushed;
+        }
+        if (unflushed) w.fail("flush-returned-with-unflushed-sink", "flush_log() returned with " + std::to_string(unflushed) + " statement(s) of the caller written to sink 2 but not flushed");
+      }
       point();
     });
   sc.frontends.push_back(
